@@ -186,3 +186,17 @@ CHECKS["C16"] = {"pkg": "netsim", "test": "TestC16", "level": "exploration",
     "assumptions": E3_ASSUME + ["new-connection packets on the FORWARD hook (pod-to-pod and pod-to-external traffic through this node); conntrack RELATED,ESTABLISHED never matches a first packet",
                                 "numeric ports only (named ports are documented as unsupported)"],
     "floors": {"isolated_local_pod": 0.3, "agrees_with_kubernetes_semantics": 0.2}}
+
+CHECKS["C17"] = {"pkg": "gcsim", "test": "TestC17", "level": "fault_enumeration",
+    "quick": {"checks": 1200, "timeout": 900}, "thorough": {"checks": 40000, "shards": 8, "timeout": 2400},
+    "rule": "rapid draws 3-12 container ids with a runtime state (Docker mode: running, paused, restarting, created, exited, dead, 404, "
+            "daemon 500, connection reset; containerd mode: sandbox READY, NOTREADY x {pod missing, containers running/waiting/terminated, "
+            "apiserver error}, NotFound, Unavailable), IP-reservation files named by IP in two dirs (content id, id\\nif, id\\r\\nif, "
+            "padded), state/port files in three gc dirs, non-IP names, empty IP files, sub-directories, a missing configured dir, and a "
+            "failing port-clean callback. The real flannel GC runs two rounds against a Docker Engine API stub / CRI gRPC stub on unix "
+            "sockets. Oracle per file: removed only if a successful runtime answer says the container is gone or exited; never on runtime "
+            "errors or for live states; everything of a dead container gone after <= 2 rounds incl. the port-clean callback; other files "
+            "and directories untouched. Non-trivial = live, dead and erroring containers in the same case.",
+    "assumptions": ["fake container runtimes speaking the Docker Engine HTTP API and the CRI RuntimeService gRPC API; the veth collector (netlink) is not exercised",
+                    "NOTREADY sandbox whose pod still has running/waiting containers counts as alive (the code's own rule)"],
+    "floors": {"alive_dead_and_erroring": 0.2, "containerd_mode": 0.15}}
